@@ -129,7 +129,7 @@ def run(c):
     # 3. S->I: every interleaving of the design each signer implements
     sched = {}
     for design in ("split", "pair"):
-        res = c.tlc("KeyGen", "KeyGen_%s.cfg" % design, subdir="gen", workers=1, coverage=False, timeout=120)
+        res = c.tlc("KeyGen", "KeyGen_%s%s.cfg" % (design, "_deep" if thorough else ""), subdir="gen", workers=1, coverage=False, timeout=300)
         sched[design] = tlcmod.printed_json(res, "SCHED")
         if not sched[design]:
             raise util.ToolError("KeyGen printed no schedules")
@@ -162,7 +162,7 @@ def run(c):
     c.sample({"schedule": sched["split"][len(sched["split"]) // 2], "signer": "proxy"})
     sched_rows = len(rows)
     # 4. I->S stress: signers against a rotating keeper
-    nsign, per = (6, 25) if not thorough else (12, 150)
+    nsign, per = (6, 25) if not thorough else (16, 600)
     branches = []
     for b in range(nsign):
         br = []
